@@ -8,6 +8,7 @@
 //! by an own damped Newton solve (a case is a violation only if both disagree).
 
 mod binary;
+mod child;
 mod layout;
 mod multi;
 mod refopt;
@@ -38,12 +39,12 @@ pub struct Out {
     pub queries: u64,
     pub extreme_queries: u64,
     pub max_own_score: f64,
-    pub tags: Vec<&'static str>,
+    pub tags: BTreeMap<String, u64>,
 }
 
 impl Out {
-    pub fn tag(&mut self, t: &'static str) {
-        self.tags.push(t);
+    pub fn tag(&mut self, t: &str) {
+        *self.tags.entry(t.to_string()).or_insert(0) += 1;
     }
 }
 
@@ -65,12 +66,79 @@ pub fn as_layout_dependence(v: Violation, fit_layout: &str, query_layout: &str) 
     )
 }
 
+static IN_CHILD: std::sync::atomic::AtomicBool = std::sync::atomic::AtomicBool::new(false);
+/// CPU-time limit of a whole logistic case evaluated in a child process (f32 cases)
+const CASE_CHILD_LIMIT_MS: u64 = 1500;
+static MAX_CASE_CHILD_MS: std::sync::atomic::AtomicU64 = std::sync::atomic::AtomicU64::new(0);
+
 fn run_case(case: &Case, viols: &mut Vec<Violation>) -> Out {
+    let in_child = IN_CHILD.load(std::sync::atomic::Ordering::Relaxed);
     match case {
+        // f32 logistic fits were observed not to return (endless line search): the whole case runs in a child
+        Case::Binary(c) if c.float == "f32" && !in_child => run_case_isolated(case, "logistic", viols),
+        Case::Multi(c) if c.float == "f32" && !in_child => run_case_isolated(case, "multi_logistic", viols),
         Case::Binary(c) => binary::run(c, viols),
         Case::Multi(c) => multi::run(c, viols),
         Case::Tweedie(c) => tweedie::run(c, viols),
     }
+}
+
+/// child side of `run_case_isolated`
+fn case_child_main(case_json: &str) -> ! {
+    std::panic::set_hook(Box::new(|_| {}));
+    IN_CHILD.store(true, std::sync::atomic::Ordering::Relaxed);
+    let case: Case = serde_json::from_str(case_json).expect("case json");
+    let mut v = Vec::new();
+    let o = run_case(&case, &mut v);
+    let viols: Vec<Value> = v.iter().map(|x| json!({"sig": x.sig, "what": x.what})).collect();
+    println!(
+        "{}",
+        json!({"ood": o.ood, "nontrivial": o.nontrivial, "indeterminate": o.indeterminate, "queries": o.queries, "extreme": o.extreme_queries,
+               "max_own_score": o.max_own_score, "tags": o.tags, "viols": viols})
+    );
+    std::process::exit(0);
+}
+
+fn run_case_isolated(case: &Case, model: &str, viols: &mut Vec<Violation>) -> Out {
+    let cj = serde_json::to_value(case).unwrap();
+    let mut out = Out::default();
+    match child::run_child(&["--run-case".to_string(), cj.to_string()], CASE_CHILD_LIMIT_MS) {
+        None => {
+            viols.push(Violation::new(
+                format!("{}.fit.does_not_terminate.f32", model),
+                format!("evaluating this f32 case (fit, then predictions) in a child process was still running after {} ms of CPU time (healthy cases of this size need < 50 ms; the f64 run of the same data returns)", CASE_CHILD_LIMIT_MS),
+                cj,
+            ));
+            out.tag("f32_case_children_killed_at_cpu_limit");
+        }
+        Some((stdout, cpu, code)) => {
+            MAX_CASE_CHILD_MS.fetch_max(cpu, std::sync::atomic::Ordering::Relaxed);
+            let v: Value = match serde_json::from_str(stdout.trim()) {
+                Ok(v) => v,
+                Err(_) => {
+                    viols.push(Violation::new(format!("{}.fit.panic", model), format!("the child evaluating this case died without an answer (exit {:?})", code), cj));
+                    return out;
+                }
+            };
+            out.ood = v["ood"].as_bool().unwrap_or(false);
+            out.nontrivial = v["nontrivial"].as_bool().unwrap_or(false);
+            out.indeterminate = v["indeterminate"].as_u64().unwrap_or(0);
+            out.queries = v["queries"].as_u64().unwrap_or(0);
+            out.extreme_queries = v["extreme"].as_u64().unwrap_or(0);
+            out.max_own_score = v["max_own_score"].as_f64().unwrap_or(0.0);
+            if let Some(t) = v["tags"].as_object() {
+                for (k, c) in t {
+                    *out.tags.entry(k.clone()).or_insert(0) += c.as_u64().unwrap_or(0);
+                }
+            }
+            if let Some(a) = v["viols"].as_array() {
+                for x in a {
+                    viols.push(Violation::new(x["sig"].as_str().unwrap_or("?"), x["what"].as_str().unwrap_or(""), cj.clone()));
+                }
+            }
+        }
+    }
+    out
 }
 
 fn replay_value(v: &Value) -> Vec<Violation> {
@@ -92,7 +160,7 @@ struct Tally {
     queries: u64,
     extreme: u64,
     max_own_score: f64,
-    tags: BTreeMap<&'static str, u64>,
+    tags: BTreeMap<String, u64>,
 }
 
 fn record(ctx: &Ctx, local: &mut Tally, o: Out, viols: Vec<Violation>) {
@@ -110,8 +178,8 @@ fn record(ctx: &Ctx, local: &mut Tally, o: Out, viols: Vec<Violation>) {
     if o.max_own_score > local.max_own_score {
         local.max_own_score = o.max_own_score;
     }
-    for t in o.tags {
-        *local.tags.entry(t).or_insert(0) += 1;
+    for (t, c) in o.tags {
+        *local.tags.entry(t).or_insert(0) += c;
     }
     ctx.violations(viols);
 }
@@ -207,6 +275,9 @@ fn main() {
         if args.len() == 3 && args[1] == "--fit-one" {
             tweedie::child_main(&args[2]);
         }
+        if args.len() == 3 && args[1] == "--run-case" {
+            case_child_main(&args[2]);
+        }
     }
     let ctx = Ctx::new("C12", Level::Exploration);
     ctx.maybe_replay(&replay_value);
@@ -226,7 +297,11 @@ fn main() {
          Tweedie: power {0,1,1.5,2,3} x link {identity, log, logit} x alpha {0,.1,1} x intercept {on,off} x EVERY target vector over a 3-letter alphabet inside the support on a 1-D design (4 points quick / 5 thorough) \
          and over a 2-letter (quick) / 3-letter (thorough) alphabet on the 6-point 2-D design, plus every single-position replacement of a target by a value outside the support. \
          evaluations = in-domain fits (one per case); non-trivial = the fit returned parameters different from its start (non-zero weights) or an out-of-support rejection was demanded; \
-         every fitted model is additionally queried on the training points, the origin and extreme points with |x.w| in {1,20,40,710,1000} (counted as prediction_queries).",
+         every fitted model is additionally queried on the training points, the origin and extreme points with |x.w| in {1,20,40,710,1000} (counted as prediction_queries). \
+         Hardening families (same runners and oracles): (a) LAYOUTS - records of fit and of predict / predict_probabilities as column-major owned array, transposed view of a feature-major array, reversed-row view of a reversed copy, \
+         every-second-row view of a larger array with NaN filler rows, each compared with the standard-layout run of the same case (subset: every 5th / every labeling of the 6-point lattices x scale {1,100} x alpha x intercept for the binary model, \
+         every 13th / 3rd partition for the multinomial model, every 27th / 5th target vector for 5 (power, link) pairs of the Tweedie model); (b) SIZES - the 6-point lattices / 5- and 6-point designs cycled to n in {1025, 4097} rows for 2 / 4 labelings, 3 partitions, 1..2 targets per (power, link), \
+         x scale x alpha x intercept, in standard and one non-standard layout (all n training rows are also prediction queries); (c) F32 - every labeling of two 6-point lattices (binary), every 5th / every partition (multinomial), every 27th / 5th target (Tweedie) at scale 1 with f32 records, parameters and predictions.",
     );
     ctx.assume("documented objectives (rustdoc of logistic_loss / multi_logistic_loss / TweedieProblem::cost): binary -sum_i log sigm(y_i z_i) + alpha/2 w.w; multinomial -sum(Y*log softmax(XW+b)) + alpha/2 ||W||_F^2; Tweedie 1/2 (sum_i unit_deviance(y_i, mu_i) + alpha w.w) with the textbook unit deviance the comments in distribution.rs quote; sums not means; the intercept is never penalised");
     ctx.assume("stationarity oracle: own f64 gradient norm at the returned parameters <= 10 x gradient_tolerance (1e-4; logistic models: max_iterations 1000 = 10 x default, and a fit that fails the test is refitted with max_iterations 5000 and judged on that refit; Tweedie: max_iter 300 = 3 x default for 1..3 parameters) OR objective within 1e-8 * max(1,|J*|) of the own damped-Newton minimum (logistic: from zero, convex; Tweedie: Newton descent started at the returned point); a violation needs BOTH to fail");
@@ -235,7 +310,9 @@ fn main() {
     ctx.assume("every Tweedie fit (and the predictions of the fitted model) runs in a child process of this binary and must return before it has used 1500 ms of CPU time (largest CPU time of a returning child is in the evidence): a library call that never returns cannot be interrupted in-process. Identity link with power >= 1: the deviance is undefined for linear predictors <= 0, so an Err from the solver is accepted there (counted); returned parameters must still be stationary");
     ctx.assume("probabilities: finite, in [0,1], equal to the own sigmoid / softmax of x.w+b within 1e-9, multinomial rows sum to 1 within 1e-9; decision: binary class must follow p > threshold outside a 1e-9 margin (inside: indeterminate), except that p bit-equal to the threshold must give the positive class ('minimum probability needed', rustdoc); multinomial: any class within 1e-9 of the row maximum is accepted");
     ctx.assume("which of the two classes is coded +1 is NOT demanded (rustdoc of label_classes says 'larger by PartialOrd', the existing test simple_example_1 pins 'more frequent, first seen on ties'): the oracle reads the coding from labels() and only demands the class SET; both rules are tallied in the evidence");
-    ctx.assume("Tweedie predictions: range of the link is taken closed (exp may saturate to 0 / +inf at |x.w| ~ 1e3), values equal the own inverse link within 1e-9 relative");
+    ctx.assume("layout families: a violation that the standard-layout run of the same case does not show is reported as <model>.<call>.layout_dependence; the comparison is through the same oracles (stationarity of each fit, probabilities against the own sigmoid / softmax within 1e-9), not bit-wise, because ndarray's dot may sum in a different order for other strides");
+    ctx.assume("f32 tolerances: probabilities 2e-6 (+ the rounding of the subject's own score, 1.2e-7 * (d+1) * sum |q_j w_j|, multinomial), tie margin 1e-6, objective gap 1e-5 relative (40 ulp of an f32 cost), gradient threshold 10 x tol + 1e-5 * sum_i |z_i|; own reference computed in f64 from the data, alpha and parameters as rounded to f32; f32 logistic cases run in a child process with a 1500 ms CPU limit (a hang was observed)");
+    ctx.assume("Tweedie predictions: range of the link is taken closed (exp may saturate to 0 / +inf at |x.w| ~ 1e3), values equal the own inverse link within 1e-9 (f32: 2e-6) relative to |prediction| + |slope of the inverse link| * (d+1) * (sum |q_j coef_j| + |intercept|)");
 
     let tally = Mutex::new(Tally::default());
 
@@ -773,6 +850,7 @@ fn main() {
     ctx.extra("hardening_large_n_cases_enumerated", json!(n_large));
     ctx.extra("hardening_f32_cases_enumerated", json!(n_f32));
     ctx.extra("hardening_cases_run", json!(hard_done));
+    ctx.extra("f32_case_child_largest_cpu_ms_of_a_returning_child", json!(MAX_CASE_CHILD_MS.load(std::sync::atomic::Ordering::Relaxed)));
     let t = tally.lock().unwrap();
     let tw_done = tw_done_pre;
     ctx.extra("tweedie_target_vectors", json!(n_targets));
